@@ -30,6 +30,10 @@ CHECKS = {
    text="Bounded exhaustive symbolic check of the real mean-stress transformation code (HaighDiagram.transform, _SegmentTransformer, fkm_goodman, five_segment_correction, collective and matrix accessors): amplitude > 0 and mean symbolic, so every sector of the Haigh plane and every border (R = 0, +-inf, 1, R12, R23) is a path. FKM-Goodman result == geometric iso-damage walk oracle; for FKM-Goodman and five-segment diagrams: T_R2 o T_R1 == T_R2, idempotence, cycle on the target ray unchanged, non-decreasing in amplitude; plain function == collective accessor (range/mean and from/to); matrix accessor conserves the symbolic cycle counts.",
    note="Mean stress sensitivities and R_goal are concrete and enumerated (4-6 (M,M2) pairs, 2-3 five-segment sets, 10 targets incl. -inf and R > 1); restricted to cycles whose iso-damage amplitude stays positive. Value claims carry 1e-12 relative tolerance. Floats as reals; float constants stand for the simplest rational that rounds to them.",
    design="6 C12"),
+ "C11": dict(
+   text="Bounded exhaustive symbolic check of Fatigue.damage, the Miner elementary/Haibach lifetime multiples, solidity and gassner_cycles on symbolic collectives: amplitudes > 0, cycle counts >= 0 (zero allowed: empty classes at top, bottom, in between are paths), SD, ND > 0 symbolic, slope k_1 a concrete integer so that all quantities are rational functions. Additivity, proportionality to the counts, member-order independence, original <= Haibach <= elementary per class; the collective scaled to the predicted Gassner cycles has damage sum one under the corresponding rule (decided as a rational-function identity); effective damage sum in [0.3, 1].",
+   note="Bounds: 1..3 (quick) / 1..4 (thorough) classes, k_1 in {3,5} / {3,4,5}, failure probability 0.5, TN=TS=1. np/pd facades keep object dtype inside woehlercurve/miner/solidity (self-tested against numpy). x**(1/4) over-approximated by an arbitrary positive real. Non-integer slopes and IntervalIndex histograms are outside.",
+   design="6 C11"),
 }
 NA = {
  "C06": "subject is convergence/accuracy of scipy Newton/secant iterations on equations with real-exponent powers: no SMT theory for x**y, cos, log or for float iteration convergence; stubbing the power removes the subject",
